@@ -138,6 +138,22 @@ def arinc_packet_fields(rng, maxn=5):
     n = rng.randrange(0, maxn + 1)
     return {"arincwords": L([arinc_word_text(rng) for _ in range(n)]), "msgcount": str(n)}
 
+def _arinc_bit_fields(bit):
+    """the word whose packed header has exactly this bit set (bit 20 is reserved: reachable only through an
+    out-of-range gap time, which `pack` adds in unmasked)"""
+    f = {"gaptime": "0", "format_error": "False", "parity_error": "False", "bus_speed": "0", "bus": "0", "payload": "x01020304"}
+    if bit >= 24:
+        f["bus"] = str(1 << (bit - 24))
+    elif bit == 23:
+        f["format_error"] = "True"
+    elif bit == 22:
+        f["parity_error"] = "True"
+    elif bit == 21:
+        f["bus_speed"] = "1"
+    else:
+        f["gaptime"] = str(1 << bit)
+    return f
+
 # =========================================================================================== analog / computer data
 def analog_fields(rng):
     return {"channel_specific_word": str(rng.boundary(32)), "data": hexb(rng.bytes_(rng.choice([0, 1, 2, 7, 64])))}
@@ -204,6 +220,14 @@ def tdf2_fields(rng):
     if code == 0:
         ns = 0          # the NTP fraction truncates: almost every other value comes back 1 ns lower (C04 allows that, equality does not)
     return {"channel_specific_data": str(csd), "seconds": str(rng.boundary(32)), "nanoseconds": str(ns)}
+
+def _ts(y, mo, d, h=0, mi=0, s=0):
+    return _calendar.timegm((y, mo, d, h, mi, s))
+
+TDF1_EDGES = [0, 59, 60, 3599, 3600, 86399, 86400, _ts(1999, 12, 31, 23, 59, 59), _ts(2000, 1, 1), _ts(2000, 2, 28, 23, 59, 59),
+              _ts(2000, 2, 29), _ts(2000, 2, 29, 23, 59, 59), _ts(2000, 3, 1), _ts(2000, 12, 31, 23, 59, 59), _ts(2024, 2, 29, 12),
+              _ts(2023, 2, 28, 23, 59, 59), _ts(2023, 3, 1), _ts(2024, 12, 31, 23, 59, 59), _ts(2038, 1, 19, 3, 14, 7),
+              _ts(2038, 1, 19, 3, 14, 8), _ts(2099, 12, 31, 23, 59, 59), _ts(1970, 12, 31, 23, 59, 59), _ts(1971, 1, 1)]
 
 # =========================================================================================== video
 def ts_chunk(rng, ctrl=1, n=188):
@@ -333,6 +357,9 @@ def corr_C04(ctx):
         lines.append(gen.H("ARINC429DataWord", gen.sets(arinc_word_fields(rng, ln)) + ["pack", "obs"]))
         f = {"arincwords": L([arinc_word_text(rng, 4), arinc_word_text(rng, ln)])}
         lines.append(gen.H("ARINC429DataPacket", gen.sets(f) + ["pack", "obs"]))
+    for bit in range(32):                          # every bit of the 32-bit intra-packet data header on its own
+        lines.append(gen.H("ARINC429DataWord", gen.sets(_arinc_bit_fields(bit)) + ["pack", "obs"]))
+        lines.append(gen.H("ARINC429DataWord", ["unpack " + hexb((1 << bit).to_bytes(4, "little") + b"\x01\x02\x03\x04"), "obs", "pack"]))
     lines += _boundary_sets("Analog", (), analog_fields(rng), "channel_specific_word", 32)
     lines += _boundary_sets("ComputerGeneratedFormat0", (), cg0_fields(rng), "_csdw", 32)
     for fld, bits in (("frmt", 1), ("srcc", 1), ("rccver", 8), ("rccver", 23)):
@@ -356,6 +383,8 @@ def corr_C04(ctx):
                 lines.append(gen.H("PCMDataPacket", gen.sets(f) + ["pack", "obs"], (KIND_SRC[kind], "None", str(nbytes))))
                 f = pcm_packet_fields(rng, kind, al, nbytes, maxk=1)
                 lines.append(gen.H("PCMDataPacket", gen.sets(f) + ["pack", "obs"], (KIND_SRC[kind], "None", "None")))
+                f = pcm_packet_fields(rng, kind, al, nbytes, maxk=3, mink=2)      # several frames, no size hint: one big frame
+                lines.append(gen.H("PCMDataPacket", gen.sets(f) + ["pack", "obs"], (KIND_SRC[kind], "None", "None")))
     # 3. time formats: calendar days x times of day, both date variants; the three network time codes
     days = [0, 1, 58, 59, 60, 364, 365, 366, 730, 789, 790, 11016, 11017, 11381, 19782, 19783, 47481, 47482, 47540, 49000]
     days += [rng.randrange(0, 47482) for _ in range(ctx.scale(120, 6000))]
@@ -365,15 +394,26 @@ def corr_C04(ctx):
             for csd in (DMY_CSD, DOY_CSD):
                 lines.append(gen.H("TimeDataFormat1", gen.sets({"channel_specific_data": str(csd), "seconds": str(d * 86400 + tod),
                                                                 "nanoseconds": str(ns)}) + ["pack", "obs"]))
-    for k in range(0, 101):                       # every boundary k*10^7 +- 1 of the 10 ms digit pair
+    for k in range(0, 101):                       # every boundary k*10^7 +- 1 of the 10 ms digit pair, on several days
         for ns in (k * 10 ** 7 - 1, k * 10 ** 7, k * 10 ** 7 + 1):
             if ns >= 0:
                 lines.append(gen.H("TimeDataFormat1", ["set nanoseconds %d" % ns, "pack"]))
+                s_ = rng.choice(TDF1_EDGES)
+                lines.append(gen.H("TimeDataFormat1", ["set channel_specific_data %d" % rng.choice([DMY_CSD, DOY_CSD]),
+                                                       "set seconds %d" % s_, "set nanoseconds %d" % ns, "pack", "obs"]))
+    for s_ in TDF1_EDGES:                         # 59 -> 0 roll-overs, 29 February, 31 December, 1999/2000, 2099
+        for csd in (DMY_CSD, DOY_CSD):
+            lines.append(gen.H("TimeDataFormat1", ["set channel_specific_data %d" % csd, "set seconds %d" % s_, "pack", "obs"]))
     for s in (-1, -86400, -62135596800, -62135596801, 253402300799, 253402300800, 4102444800, 2 ** 32, 2 ** 33):
         for csd in (DMY_CSD, DOY_CSD):
             lines.append(gen.H("TimeDataFormat1", ["set channel_specific_data %d" % csd, "set seconds %d" % s, "pack", "obs"]))
     for csd in (0, 2 ** 32 - 1, 2 ** 32):
         lines.append(gen.H("TimeDataFormat1", ["set channel_specific_data %d" % csd, "pack", "obs"]))
+    for code in (0, 1, 2):
+        for sec in (0, 2 ** 31, 2 ** 32 - 1):
+            for ns in (0, 1, 999999999, rng.randrange(10 ** 9)):
+                f = {"channel_specific_data": str((code << 4) | 1), "seconds": str(sec), "nanoseconds": str(ns)}
+                lines.append(gen.H("TimeDataFormat2", gen.sets(f) + ["pack", "obs"]))
     for code in range(0, 16):
         for ns in (0, 1, 2, 499999999, 500000000, 999999998, 999999999, 10 ** 9, 2 ** 32 - 1, rng.randrange(10 ** 9)):
             f = {"channel_specific_data": str((code << 4) | 1), "seconds": str(rng.boundary(32)), "nanoseconds": str(ns)}
@@ -657,6 +697,41 @@ def check_pcm_throughput(args):
         return _fail("PCM throughput: decoded packet differs from the encoded one", check="roundtrip", field="eq")
     return None
 
+def check_pcm_detect(args):
+    """PCM packed mode without a size hint or sync word: a single minor frame of even total size is recovered"""
+    kind, align, csw, f = args["kind"], args["align"], args["csw"], args["frame"]
+    src = ch11.TS_CH4 if kind == "rtc" else ch11.TS_IEEE1558
+    p = pcm.PCMDataPacket(src)
+    p.channel_specific_word = csw
+    p.append(_mk_pcm_frame(kind, align, f))
+    b = p.pack()
+    q = pcm.PCMDataPacket(src)
+    q.unpack(b)
+    got = [{"ipts": _ipts_vals(x.ipts), "hdr": x.intra_packet_data_header, "data": bytes(x.minor_frame_data).hex()} for x in q.minor_frames]
+    if got != [f]:
+        return _fail("PCM decode without size hint: frame %r decoded as %r" % (f, got), check="roundtrip", field="minor_frames")
+    if q.minor_frame_size_bytes != len(f["data"]) // 2:
+        return _fail("PCM decode without size hint: derived size %r for %d data bytes" % (q.minor_frame_size_bytes, len(f["data"]) // 2),
+                     check="roundtrip", field="minor_frame_size_bytes")
+    return None
+
+def check_pcm_sync_fields(args):
+    """a minor frame whose `syncword` / `sfid` attributes are set: what pack() writes is what
+    unpack(extract_sync_sfid=True) reads, and the decoded frame re-encodes to the same bytes"""
+    kind, align, f, sw, sfid = args["kind"], args["align"], args["frame"], args["syncword"], args["sfid"]
+    o = _mk_pcm_frame(kind, align, f)
+    o.syncword, o.sfid = sw, sfid
+    b = o.pack()
+    q = pcm.PCMMinorFrame(ch11.TS_CH4 if kind == "rtc" else ch11.TS_IEEE1558, False, align)
+    q.unpack(b, extract_sync_sfid=True)
+    if (q.syncword, q.sfid) != (sw, sfid):
+        return _fail("PCMMinorFrame: packed with syncword=%#x sfid=%d, unpack(extract_sync_sfid=True) reads syncword=%#x sfid=%d" % (
+            sw, sfid, q.syncword, q.sfid), check="roundtrip", field="syncword")
+    if q.pack() != b:
+        return _fail("PCMMinorFrame: re-encoding a frame decoded with extract_sync_sfid=True gives %d bytes instead of %d" % (len(q.pack()), len(b)),
+                     check="roundtrip", field="syncword")
+    return None
+
 def _civil(s):
     t = _time.gmtime(s)
     return t.tm_year, t.tm_mon, t.tm_mday, t.tm_hour, t.tm_min, t.tm_sec, t.tm_yday
@@ -771,9 +846,11 @@ def check_video(args):
 
 _CHECKS = {"uart_word": check_uart_word, "uart_packet": check_uart_packet, "mil_packet": check_mil_packet,
            "arinc_packet": check_arinc_packet, "pcm_packed": check_pcm_packed, "pcm_throughput": check_pcm_throughput,
+           "pcm_detect": check_pcm_detect, "pcm_sync_fields": check_pcm_sync_fields,
            "tdf1": check_tdf1, "tdf2": check_tdf2, "csw_data": check_csw_data, "video": check_video}
 _CLASS_OF = {"uart_word": "UARTDataWord", "uart_packet": "UARTDataPacket", "mil_packet": "MILSTD1553DataPacket",
              "arinc_packet": "ARINC429DataPacket", "pcm_packed": "PCMDataPacket", "pcm_throughput": "PCMDataPacket",
+             "pcm_detect": "PCMDataPacket", "pcm_sync_fields": "PCMMinorFrame",
              "tdf1": "TimeDataFormat1", "tdf2": "TimeDataFormat2", "video": "VideoFormat2"}
 
 def _guard(fn):
@@ -816,7 +893,7 @@ def _c04_cases(ctx):
         for cnt in list(range(1, 13)) * m:
             ms = [{"ipts": ipts_json(rng, kind), "bs": rng.boundary(16), "gap": rng.boundary(16),
                    "data": rng.bytes_(rng.choice([0, 1, 2, 3, 8, 64] if i < cnt - 1 else [1, 2, 3, 8, 64])).hex()} for i in range(cnt)]
-            cases.append(("mil_packet", {"kind": kind, "ttb": rng.randrange(4), "msgs": ms}))
+            cases.append(("mil_packet", {"kind": kind, "ttb": (cnt + len(cases)) % 4, "msgs": ms}))
     for cnt in list(range(0, 13)) * m:
         ws = [{"gap": rng.boundary(20), "fe": rng.random() < 0.5, "pe": rng.random() < 0.5, "speed": rng.randrange(2),
                "bus": rng.boundary(8), "data": rng.bytes_(4).hex()} for _ in range(cnt)]
@@ -833,10 +910,27 @@ def _c04_cases(ctx):
                 for cnt in (1, 2, 5):
                     fs = [{"ipts": ipts_json(rng, kind), "hdr": rng.boundary(32 if align else 16), "data": rng.bytes_(size).hex()} for _ in range(cnt)]
                     cases.append(("pcm_packed", {"kind": kind, "align": align, "size": size, "csw": pcm_csw(rng, 0, align), "frames": fs}))
+    for bit in list(range(0, 20)) + list(range(21, 32)):       # every (non-reserved) bit of the ARINC header on its own
+        f = _arinc_bit_fields(bit)
+        cases.append(("arinc_packet", {"words": [{"gap": int(f["gaptime"]), "fe": f["format_error"] == "True", "pe": f["parity_error"] == "True",
+                                                  "speed": int(f["bus_speed"]), "bus": int(f["bus"]), "data": "01020304"}]}))
+    for kind in ("rtc", "ptp"):
+        for align in (0, 1):
+            for size in (0, 2, 4, 10):
+                fr = {"ipts": ipts_json(rng, kind), "hdr": rng.boundary(32 if align else 16), "data": rng.bytes_(size).hex()}
+                cases.append(("pcm_detect", {"kind": kind, "align": align, "csw": pcm_csw(rng, 0, align), "frame": fr}))
+            fr = {"ipts": ipts_json(rng, kind), "hdr": 1, "data": rng.bytes_(4).hex()}
+            cases.append(("pcm_sync_fields", {"kind": kind, "align": align, "frame": fr, "syncword": SYNC, "sfid": 1}))
     for n in (0, 2, 4, 6, 100):
         for align in (0, 1):
             cases.append(("pcm_throughput", {"csw": pcm_csw(rng, 1, align), "data": rng.bytes_(n).hex()}))
-    days = [0, 58, 59, 60, 364, 365, 789, 790, 11016, 11017, 19782, 47481] + [rng.randrange(47482) for _ in range(ctx.scale(150, 47482))]
+    for s_ in TDF1_EDGES:
+        for csd in (DMY_CSD, DOY_CSD):
+            cases.append(("tdf1", {"csd": csd, "seconds": s_, "nanoseconds": rng.choice([0, 999999999])}))
+    for k in range(100):                              # the hundredths byte for every k, at and around k*10^7
+        for ns in (k * 10 ** 7, k * 10 ** 7 + 1, (k + 1) * 10 ** 7 - 1):
+            cases.append(("tdf1", {"csd": rng.choice([DMY_CSD, DOY_CSD]), "seconds": rng.choice(TDF1_EDGES), "nanoseconds": ns}))
+    days = [0, 58, 59, 60, 364, 365, 789, 790, 11016, 11017, 19782, 47481] + [rng.randrange(47482) for _ in range(ctx.scale(100, 47482))]
     if ctx.tier == "thorough":
         days = list(range(47482))
     for d in days:
@@ -846,6 +940,10 @@ def _c04_cases(ctx):
             cases.append(("tdf1", {"csd": csd, "seconds": d * 86400 + tod, "nanoseconds": ns}))
     nss = [0, 1, 2, 3, 4, 5, 499999999, 500000000, 999999990, 999999997, 999999998, 999999999]
     nss += [k * 10 ** 8 + e for k in range(1, 10) for e in (-1, 0, 1)] + [rng.randrange(10 ** 9) for _ in range(ctx.scale(150, 20000))]
+    for code in (0, 1, 2):
+        for sec in (0, 2 ** 31, 2 ** 32 - 1):
+            for ns in (0, 1, 999999999, rng.randrange(10 ** 9)):
+                cases.append(("tdf2", {"csd": (code << 4) | 1, "seconds": sec, "nanoseconds": ns}))
     for ns in nss:
         for code in (0, 1, 2):
             cases.append(("tdf2", {"csd": (code << 4) | rng.choice([0, 1]) | (rng.getrandbits(24) << 8), "seconds": rng.boundary(32), "nanoseconds": ns}))
@@ -874,6 +972,59 @@ def oracles_C04(ctx, hints):
             if key not in seen:
                 seen.add(key)
                 fails.append(Failure("ch11_" + name, args, what, t))
+    ctx.count("oracle_evaluations", n)
+    return fails
+
+# =========================================================================================== C13: attributes unpack() leaves alone
+def _mf_history_cases(ctx):
+    rng = ctx.rng
+    out = []
+    for kind in ("rtc", "ptp"):
+        for al in (0, 1):
+            opts = (KIND_SRC[kind], "False", str(al))
+            b1 = rng.bytes_(8 + (4 if al else 2) + 6 + rng.randrange(0, 5))
+            b2 = rng.bytes_(8 + (4 if al else 2) + rng.randrange(0, 9))
+            out.append((opts, ["unpack %s True" % hexb(b1)], "unpack %s False" % hexb(b2)))
+            out.append((opts, ["set syncword %d" % rng.getrandbits(32)], "unpack %s" % hexb(b2)))
+            out.append((opts, ["set sfid %d" % rng.getrandbits(16)], "unpack %s" % hexb(b2)))
+            out.append((opts, ["unpack %s False" % hexb(b1)], "unpack %s True" % hexb(b1)))
+    for al in (0, 1):
+        out.append((("0", "True", str(al)), ["set intra_packet_data_header 7"], "unpack " + hexb(rng.bytes_(6))))
+    return out
+
+def corr_C13(ctx):
+    lines = []
+    for opts, ops, final in _mf_history_cases(ctx):
+        lines.append(gen.H("PCMMinorFrame", ops + [final, "obs", "pack", "obs"], opts))
+        lines.append(gen.H("PCMMinorFrame", [final, "obs", "pack", "obs"], opts))
+    return lines
+
+def check_mf_history(args):
+    """PCMMinorFrame: after any history, unpack(buf) leaves the object as it leaves a new one"""
+    a = ADAPTERS["PCMMinorFrame"]
+    from ..core import run_ops_impl, pyval, parse_val
+    po = [pyval(parse_val(x)) for x in args["opts"]]
+    tail = [args["final"], "obs", "pack"]
+    _, _, out1 = run_ops_impl(a, po, list(args["ops"]) + tail)
+    _, _, out2 = run_ops_impl(a, po, tail)
+    t1 = out1[len(args["ops"]):]
+    if t1 != out2:
+        return "PCMMinorFrame: after %s, %s leaves %s but a new object is left as %s" % (args["ops"], args["final"], t1[1:], out2[1:])
+    return None
+
+ORACLES["ch11_mf_history"] = check_mf_history
+
+def oracles_C13(ctx, hints):
+    fails, n, seen = [], 0, set()
+    for opts, ops, final in _mf_history_cases(ctx):
+        n += 1
+        args = {"opts": list(opts), "ops": ops, "final": final}
+        w = check_mf_history(args)
+        if w:
+            fld = "intra_packet_data_header" if opts[1] == "True" else "syncword"
+            if fld not in seen:
+                seen.add(fld)
+                fails.append(Failure("ch11_mf_history", args, w, {"class": "PCMMinorFrame", "check": "history", "field": fld}))
     ctx.count("oracle_evaluations", n)
     return fails
 
